@@ -39,7 +39,7 @@ REQUIRED_REACH = ["common.Header.deserialize", "treeinfo.Header.deserialize", "c
 REQUIRED_MONITORS = ["invalid-value-rejected-or-normalised", "foreign-type-rejected", "mangled-version-rejected",
                      "missing-required-rejected", "uncorrupted-loads"]
 CLASS_FLOORS = {"kind-value": 100, "kind-delete": 50, "kind-header-type": 50, "kind-version": 30, "type-gate-1.0-recorded": 5,
-                "entry-loads": 100, "entry-load-path": 100, "entry-load-fileobj": 100, "type-gate-1.1": 10, "type-gate-1.2": 10, "type-gate-2.0": 10, "type-deleted": 5, "value-normalised-on-read": 5}
+                "entry-loads": 100, "entry-load-path": 100, "entry-load-fileobj": 100, "entry-compose-accessor": 50, "type-gate-1.1": 10, "type-gate-1.2": 10, "type-gate-2.0": 10, "type-deleted": 5, "value-normalised-on-read": 5}
 for _f in formats.FORMATS:
     CLASS_FLOORS["fmt-" + _f] = 20
 
@@ -104,11 +104,33 @@ def load(pms, fmt, textin, entry="loads", scratch=None):
         import io
         obj.load(io.StringIO(textin))
         return obj
+    if entry == "compose-accessor":
+        # the document sits in a compose directory and is read through productmd.compose.Compose(<dir>).<accessor>; the
+        # accessor is asked TWICE: a document refused the first time must not be handed out the second time
+        acc, fname = COMPOSE_ACCESSOR[fmt]
+        import shutil
+        import productmd.compose
+        root = os.path.join(scratch, "c07-compose")
+        shutil.rmtree(root, ignore_errors=True)
+        os.makedirs(os.path.join(root, "compose", "metadata"))
+        with open(os.path.join(root, "compose", "metadata", fname), "w", encoding="utf-8", errors="surrogatepass", newline="") as f:
+            f.write(textin)
+        comp = productmd.compose.Compose(root)
+        first = None
+        try:
+            return getattr(comp, acc)
+        except Exception as e:
+            first = e
+        return getattr(comp, acc)        # raises again on a sound library
     path = os.path.join(scratch, "c07-doc")
     with open(path, "w", encoding="utf-8", errors="surrogatepass", newline="") as f:
         f.write(textin)
     obj.load(path)
     return obj
+
+
+COMPOSE_ACCESSOR = {"composeinfo": ("info", "composeinfo.json"), "images": ("images", "images.json"), "rpms": ("rpms", "rpms.json"),
+                    "modules": ("modules", "modules.json")}
 
 
 def is_coercion_slot(cor):
@@ -126,6 +148,8 @@ def check_one(ctx, pms, fmt, D, order_seed, doc, cor):
     kind = cor["kind"]
     ctx.count("kind-" + kind)
     entry = ENTRY_POINTS[(order_seed + len(textin)) % 3]
+    if fmt in COMPOSE_ACCESSOR and (order_seed + len(textin)) % 5 == 0:
+        entry = "compose-accessor"
     case["entry"] = entry
     ctx.count("entry-" + entry)
     try:
